@@ -344,11 +344,20 @@ pub fn generate_pipes(rng: &mut Rng) -> Program {
     if rng.chance(1, 3) { creator.push(Op::Desync(o, vec![])); }
     if through { creator.push(Op::Pipe(o, 0, 0)); } else { creator.push(Op::PipeIn(o, 0)); }
     if through && rng.chance(1, 3) { creator.push(Op::SetDepth(0, 1 + rng.below(5))); }
-    let total = 1 + rng.below(8);
+    // (an input may also end without ever yielding an item)
+    let total = if rng.chance(1, 8) { 0 } else { 1 + rng.below(8) };
     if through {
         // the creator is also the consumer (the output stream lives in its frame)
         let reads = rng.below(total + 1);
-        for _ in 0..reads { creator.push(Op::Next(0)); if rng.chance(1, 4) { creator.push(Op::Yield); } }
+        // sometimes the creator gives up its own reference to the target: the pipe then holds the last one
+        let give_up = rng.chance(1, 4);
+        let give_up_at = rng.below(reads + 1);
+        for i in 0..reads {
+            if give_up && i == give_up_at { creator.push(Op::DropObj(o)); }
+            creator.push(Op::Next(0));
+            if rng.chance(1, 4) { creator.push(Op::Yield); }
+        }
+        if give_up && give_up_at >= reads { creator.push(Op::DropObj(o)); if rng.chance(1, 2) { creator.push(Op::Yield); } }
         let c = rng.below(3);
         if c == 0 { creator.push(Op::Drain(0)); } else if c == 1 { creator.push(Op::DropOut(0)); }
     } else {
@@ -358,7 +367,8 @@ pub fn generate_pipes(rng: &mut Rng) -> Program {
     // producer
     let mut prod = vec![];
     let mut left = total;
-    while left > 0 { let n = 1 + rng.below(left.min(3)); prod.push(Op::Send(0, n)); left -= n; if rng.chance(1, 2) { prod.push(Op::Yield); } }
+    if total == 0 && rng.chance(1, 2) { prod.push(Op::Yield); }
+    while left > 0 { let n = 1 + rng.below(left.min(3)); prod.push(Op::Send(0, n)); left -= n; if rng.chance(1, 2) { prod.push(Op::Yield); if rng.chance(1, 3) { prod.push(Op::Yield); } } }
     // a consumer that drains needs the input to end; otherwise closing is optional
     let must_close = threads[0].iter().any(|op| matches!(op, Op::Drain(_)));
     if must_close || rng.chance(1, 2) { prod.push(Op::CloseCh(0)); }
